@@ -295,7 +295,7 @@ def _removal_helpers(e: Engine):
     """Private methods of Queue that are referenced from the removal
     primitive `_remove` (or from such a helper) only: they are part of it,
     the guards are checked where `_remove` is called."""
-    c = e.p.cls(QUEUE)
+    c = common.merged_class(e, QUEUE)
     refs = {}
     for mname, m in c.methods.items():
         for x in walk_own(m.node):
@@ -319,7 +319,7 @@ def r12(e: Engine, rep: Report):
     rep.tables.add('c01.REMOVAL_SITES')
     p = e.p
     helpers = _removal_helpers(e)
-    c = e.p.cls(QUEUE)
+    c = common.merged_class(e, QUEUE)
 
     def site_calls(fn_node):
         out = []
